@@ -74,7 +74,8 @@ def model_input(pair, conn_desc, schemas, obj_pred, name_pred):
         "colDiffer": fs.col_differ(pair),
         "tableCommentDiffer": fs.table_comment_differ(pair),
         "supportsUq": not no_uq,
-        "objPred": obj_pred,
+        # content rules: the verdict as a function of the REAL tables (database description / model), for model and spec
+        "objPred": fs.expand_pred(obj_pred, conn_desc, fs.describe_meta(pair["meta"])),
         "namePred": name_pred,
     }
 
